@@ -52,6 +52,7 @@ structure Obs where
 inductive Clause
   | rejectedFirst | returnedExists | returnedAllowed | forbiddenByName | grantedAllowed | grantNeedsMatch
   | orderIndependent | joinedAllowed | attributedWithoutCredential
+  | createdAllowed | changedAllowed | lookupNamed
   deriving DecidableEq, Repr
 
 def Clause.name : Clause → String
@@ -64,6 +65,9 @@ def Clause.name : Clause → String
   | .orderIndependent => "result_independent_of_visit_order"
   | .joinedAllowed => "joined_objects_allowed"
   | .attributedWithoutCredential => "attributed_only_with_credential"
+  | .createdAllowed => "created_object_is_allowed"
+  | .changedAllowed => "changed_objects_allowed"
+  | .lookupNamed => "lookup_returns_the_named_object"
 
 /-- "rejected": the request failed.  Which error object or message the code uses for it is not part of the
     property (the model's `Err.permission` is finer than what is observed). -/
@@ -126,6 +130,36 @@ def specAuthCN (cn : String) (attributed : Option AUser) : Option Clause :=
 def specGrant (u : User) (perm : String) (granted : Bool) : Option Clause :=
   if perm == "" then none
   else if granted && !someMatch u perm then some .grantNeedsMatch else none
+
+/-- "can act on an object only if …": the objects a request CHANGED (read off the whole inventory after the request,
+    not off the response) are all allowed, and a request for which no permission matches changes nothing. -/
+def specChanged (u : User) (perm : String) (changed : List Obj) : Option Clause :=
+  if perm == "" then none
+  else if !someMatch u perm then (if changed.isEmpty then none else some .rejectedFirst)
+  else if changed.any (fun o => !allowedB u perm o) then some .changedAllowed
+  else none
+
+/-- The by-name lookup of execute-command (endpoint, command, user, notification): whatever it hands out is the
+    registered object of that type and name, and one the user may query — "addressing a forbidden object by name
+    yields an error rather than the object", and rather than some other object. -/
+def specLookup (u : User) (type name : String) (inv : Inventory) (returned : Option Obj) : Option Clause :=
+  match returned with
+  | none => none
+  | some o =>
+    if !someMatch u ("objects/query/" ++ type) then some .rejectedFirst
+    else if o.type != type || o.name != name then some .lookupNamed
+    else if !inv.contains o then some .returnedExists
+    else if !allowedB u ("objects/query/" ++ type) o then some .returnedAllowed
+    else none
+
+/-- Creating an object is acting on it: it happens only if some entry matches `objects/create/<Type>` and, when that
+    entry carries a filter, the filter is true of the object that comes into being.  `o` is the new object, the
+    user's filters are total on it (the harness evaluates them on the created object). -/
+def specCreate (u : User) (type : String) (o : Obj) (created : Bool) : Option Clause :=
+  if !created then none
+  else if !someMatch u ("objects/create/" ++ type) then some .rejectedFirst
+  else if !allowedB u ("objects/create/" ++ type) o then some .createdAllowed
+  else none
 
 /-- Two outcomes agree up to the order of the returned objects (which error was raised first may depend on
     the order in which names are visited; whether the request fails may not). -/
